@@ -128,7 +128,18 @@ pub struct HistOpts {
 }
 
 /// Generate and run one registry history on the real `Issuer` API.
+/// registry context reused across many scripted histories (exhaustive tree)
+pub struct Shared {
+    rc: RegCtx,
+    bl: Blinded,
+    init: RevocationRegistry,
+}
+
 pub fn run_history(cd: &CredDef, rng: &mut Rng, id: &str, o: &HistOpts, forced: Option<(u32, bool, Vec<Value>)>) -> Result<Vec<Value>, String> {
+    run_history_shared(cd, rng, id, o, forced, None)
+}
+
+pub fn run_history_shared(cd: &CredDef, rng: &mut Rng, id: &str, o: &HistOpts, forced: Option<(u32, bool, Vec<Value>)>, shared: Option<&mut Shared>) -> Result<Vec<Value>, String> {
     let (l, by_default, script) = match forced {
         Some((l, bd, ops)) => (l, bd, Some(ops)),
         None => (1 + rng.below(o.max_l as u64) as u32, rng.chance(1, 2), None),
@@ -137,8 +148,21 @@ pub fn run_history(cd: &CredDef, rng: &mut Rng, id: &str, o: &HistOpts, forced: 
         Some(s) => s.len(),
         None => 1 + rng.below(o.max_depth as u64) as usize,
     };
-    let mut rc = RegCtx::new(cd, l, by_default)?;
-    let bl = blinded_for(cd, rng)?;
+    let mut own: Option<Shared> = None;
+    let sh: &mut Shared = match shared {
+        Some(s) => {
+            s.rc.reg = s.init.clone();
+            s
+        }
+        None => {
+            let rc = RegCtx::new(cd, l, by_default)?;
+            let init = rc.reg.clone();
+            own = Some(Shared { rc, bl: blinded_for(cd, rng)?, init });
+            own.as_mut().unwrap()
+        }
+    };
+    let rc = &mut sh.rc;
+    let bl = &sh.bl;
     let g_dash_s = jv(&cd.pk)["r_key"]["g_dash"].as_str().unwrap_or("").to_string();
     let g_s = jv(&cd.pk)["r_key"]["g"].as_str().unwrap_or("").to_string();
     let g_dash = vf::PointG2::from_string(&g_dash_s).map_err(|e| e.to_string())?;
@@ -587,22 +611,26 @@ fn gen_reg(thorough: bool, rng: &mut Rng) -> Result<(), String> {
                     emit(&c);
                 }
             }
-            let n = if thorough { 1500 } else { 40 };
+            let n = if thorough { 300 } else { 40 };
             for k in 0..n {
                 for c in run_history(&cd, rng, &format!("reg/{}", k), &opts, None)? {
                     emit(&c);
                 }
             }
             if thorough {
-                // exhaustive tree L<=3 (indices 0..=L+1, three single-index ops), depth <= 3; depth 4 for L<=2
+                // exhaustive tree L<=3 (indices 0..=L+1, three single-index ops)
                 let opts2 = HistOpts { max_l: 3, max_depth: 4, with_holders: false, illformed_pct: 0, wild_pct: 0 };
                 let mut k = 0;
                 for l in 1..=3u32 {
-                    let maxd = if l <= 2 { 4 } else { 3 };
+                    // alphabet 3*(L+2) per step: depth 3 for L<=2 (729 / 1728 scripts per mode), depth 2 for L=3
+                    let maxd = if l <= 2 { 3 } else { 2 };
                     for d in 1..=maxd {
-                        for script in enumerate_scripts(l, d) {
-                            for bd in [false, true] {
-                                for c in run_history(&cd, rng, &format!("reg/tree/{}", k), &opts2, Some((l, bd, script.clone())))? {
+                        for bd in [false, true] {
+                            let rc = RegCtx::new(&cd, l, bd)?;
+                            let init = rc.reg.clone();
+                            let mut sh = Shared { rc, bl: blinded_for(&cd, rng)?, init };
+                            for script in enumerate_scripts(l, d) {
+                                for c in run_history_shared(&cd, rng, &format!("reg/tree/{}", k), &opts2, Some((l, bd, script.clone())), Some(&mut sh))? {
                                     emit(&c);
                                 }
                                 k += 1;
